@@ -652,14 +652,15 @@ class Template(DirectiveFactory):
                 try:
                     tmpl = self.loader.load(href, relative_to=event[2][0],
                                             cls=cls or self.__class__)
-                    for event in tmpl.generate(ctxt, **vars):
-                        yield event
                 except TemplateNotFound:
                     if fallback is None:
                         raise
                     for filter_ in self.filters:
                         fallback = filter_(iter(fallback), ctxt, **vars)
                     for event in fallback:
+                        yield event
+                else:
+                    for event in tmpl.generate(ctxt, **vars):
                         yield event
             else:
                 yield event
